@@ -49,6 +49,8 @@ void Sim::beginRegion(const std::vector<int>& inWorkerIds, int inCreatorId, bool
     scribbled = false;
     unfinished = 0;
     readyVec.clear();
+    nestPairs.clear();
+    invPairs.clear();
     hasCommutative = false;
     firstPending = 0;
     eventHash = mix64(eventHash, 0xB0000000ULL + workerIds.size());
@@ -280,9 +282,9 @@ void Sim::runTask(int id, int wi, int kind) {
         auto it = std::lower_bound(readyVec.begin(), readyVec.end(), id);
         if (it != readyVec.end() && *it == id) readyVec.erase(it);
         while (firstPending < tasks.size() && tasks[firstPending]->state != 0) firstPending += 1;
-        if (firstPending < size_t(id)) stats.inversions += 1;
+        if (firstPending < size_t(id)) { stats.inversions += 1; if (invPairs.size() < 4096) invPairs.emplace_back(id, int(firstPending)); }
     }
-    if (depth > 0) stats.overlaps += 1;
+    if (depth > 0) { stats.overlaps += 1; if (curTask >= 0 && nestPairs.size() < 4096) nestPairs.emplace_back(id, curTask); }
     if (kind == PK_WAIT) stats.deferredToWait += 1;
     if (t.createdBeforeScribble) stats.ranAfterScribble += 1;
     stats.startedAt[kind] += 1;
